@@ -314,6 +314,29 @@ impl<
         self.shards.iter().for_each(|shard| shard.write().clear());
     }
 
+    #[cfg(transparencies_stretto_verif)]
+    pub(crate) fn verif_entries(&self, tag: impl Fn(&V) -> u64) -> Vec<crate::verif::Entry> {
+        let mut v = Vec::new();
+        for shard in self.shards.iter() {
+            for (k, it) in shard.read().iter() {
+                let (ttl_ns, created_ns) = it.expiration.verif_parts();
+                v.push(crate::verif::Entry {
+                    index: *k,
+                    conflict: it.conflict,
+                    ttl_ns,
+                    created_ns,
+                    tag: tag(it.value.get()),
+                });
+            }
+        }
+        v
+    }
+
+    #[cfg(transparencies_stretto_verif)]
+    pub(crate) fn verif_buckets(&self) -> Vec<(i64, Vec<(u64, u64)>)> {
+        self.em.verif_buckets()
+    }
+
     pub fn hasher(&self) -> ES {
         self.em.hasher()
     }
